@@ -22,7 +22,16 @@ def earlyPc : HPc → Bool
   | .h0 | .h1 | .h2 | .h3 => true
   | _ => false
 
-/-- the RPC was rejected before the mode switch -/
+/-- the handler has not executed the mode switch yet (`h4`: about to; an unknown mode is rejected
+there with `InvalidArgument`, after `HasTarget` and the ACL check, as in the code) -/
+def beforeSwitch : HPc → Bool
+  | .h0 | .h1 | .h2 | .h3 | .h4 => true
+  | _ => false
+
+theorem beforeSwitch_of_early {pc : HPc} (h : earlyPc pc = true) : beforeSwitch pc = true := by
+  revert h; cases pc <;> simp [earlyPc, beforeSwitch]
+
+/-- the RPC was rejected before or by the mode switch -/
 def earlySt : Option Status → Bool
   | some .unauthenticated | some .invalid | some .notFound | some .denied => true
   | _ => false
@@ -33,25 +42,25 @@ def Untouched (b : Sub K V R) : Prop :=
     (b.snd = .off ∨ b.snd = .stopped)
 
 structure Early (rq : Req K T R) (b : Sub K V R) : Prop where
-  pcU : earlyPc b.pc = true → b.q = [] ∧ b.rounds = 0 ∧ b.insLog = []
+  pcU : beforeSwitch b.pc = true → b.q = [] ∧ b.rounds = 0 ∧ b.insLog = []
   stU : earlySt b.status = true → Untouched b
   acl : rq.aclOk = false → b.pc = .h0 ∨ b.status = some .unauthenticated
   denied : ∀ t, rq.single = some t → rq.allow t = false →
     earlyPc b.pc = true ∨ earlySt b.status = true
 
 theorem early_init (rq : Req K T R) : Early rq ({} : Sub K V R) := by
-  constructor <;> simp [earlyPc, earlySt, Untouched]
+  constructor <;> simp [earlyPc, beforeSwitch, earlySt, Untouched]
 
 theorem early_local {sys : Sys K T R} {rq : Req K T R} {sh : Shared K V T R} {b b' : Sub K V R}
     {l : SLabel K} (hph : Phase rq b) (h : SubStep sys rq sh b l b') (hi : Early rq b) :
     Early rq b' := by
   obtain ⟨h1, h2, h3, h4⟩ := hi
-  have hpre : earlyPc b.pc = true → b.pc.pre = true ∧ b.pc.preReg = true := by
-    cases b.pc <;> simp [earlyPc, HPc.pre, HPc.preReg]
-  have p1 : earlyPc b.pc = true → b.snd = .off := fun h => hph.pre_snd (hpre h).1
-  have p2 : earlyPc b.pc = true → b.walker = .idle := fun h => hph.pre_walker (hpre h).1
-  have p3 : earlyPc b.pc = true → b.sent = [] := fun h => hph.pre_sent (hpre h).1
-  have p4 : earlyPc b.pc = true → b.registered = false := fun h => hph.pre_reg (hpre h).2
+  have hpre : beforeSwitch b.pc = true → b.pc.pre = true ∧ b.pc.preReg = true := by
+    cases b.pc <;> simp [beforeSwitch, HPc.pre, HPc.preReg]
+  have p1 : beforeSwitch b.pc = true → b.snd = .off := fun h => hph.pre_snd (hpre h).1
+  have p2 : beforeSwitch b.pc = true → b.walker = .idle := fun h => hph.pre_walker (hpre h).1
+  have p3 : beforeSwitch b.pc = true → b.sent = [] := fun h => hph.pre_sent (hpre h).1
+  have p4 : beforeSwitch b.pc = true → b.registered = false := fun h => hph.pre_reg (hpre h).2
   have p5 := hph.status_fin
   have p6 := hph.fin_snd
   have p7 := hph.armed
@@ -62,37 +71,39 @@ theorem early_local {sys : Sys K T R} {rq : Req K T R} {sh : Shared K V T R} {b 
     | true => rcases hph.reg_pc hr with e | e <;> rw [e] at hf <;> cases hf
   have p10 : b.armed = true → earlyPc b.pc = false ∧ b.pc ≠ .fin := by
     intro ha
-    obtain ⟨r, hr⟩ := p7.1 ha
+    have hr : b.snd ≠ .off ∧ b.snd ≠ .stopped := by
+      rcases p7.1 ha with hr | ⟨r, hr⟩ <;> rw [hr] <;> constructor <;> intro e <;> cases e
     constructor
     · cases he : earlyPc b.pc with
       | false => rfl
-      | true => rw [p1 he] at hr; cases hr
-    · intro hf; rw [p6 hf] at hr; cases hr
+      | true => exact absurd (p1 (beforeSwitch_of_early he)) hr.1
+    · intro hf; exact absurd (p6 hf) hr.2
+  have hes : earlyPc b.pc = true → beforeSwitch b.pc = true := beforeSwitch_of_early
   clear hpre hph p7
   refine ⟨?_, ?_, ?_, ?_⟩
   · intro hx
     clear h2 h3 h4
     cases h
-    case fin l st why => cases why <;> simp_all [Sub.finish, earlyPc, earlySt]
-    all_goals simp_all [Sub.finish, Sub.startWalk, earlyPc, earlySt]
+    case fin l st why => cases why <;> simp_all [Sub.finish, earlyPc, beforeSwitch, earlySt]
+    all_goals simp_all [Sub.finish, Sub.startWalk, earlyPc, beforeSwitch, earlySt]
     all_goals (cases hsw : sys.swap <;> simp_all)
     all_goals (by_cases hm : rq.mode = .stream <;> simp [hm] at hx)
   · intro hx
     clear h3 h4
     cases h
-    case fin l st why => cases why <;> simp_all [Sub.finish, earlyPc, earlySt, Untouched]
-    all_goals simp_all [Sub.finish, Sub.startWalk, earlyPc, earlySt, Untouched]
+    case fin l st why => cases why <;> simp_all [Sub.finish, earlyPc, beforeSwitch, earlySt, Untouched]
+    all_goals simp_all [Sub.finish, Sub.startWalk, earlyPc, beforeSwitch, earlySt, Untouched]
   · intro hx
     clear h1 h2 h4
     cases h
-    case fin l st why => cases why <;> simp_all [Sub.finish, earlyPc, earlySt]
-    all_goals simp_all [Sub.finish, Sub.startWalk, earlyPc, earlySt]
+    case fin l st why => cases why <;> simp_all [Sub.finish, earlyPc, beforeSwitch, earlySt]
+    all_goals simp_all [Sub.finish, Sub.startWalk, earlyPc, beforeSwitch, earlySt]
   · intro t ht hx
     have h4' := h4 t ht hx
     clear h1 h2 h3 h4
     cases h
-    case fin l st why => cases why <;> simp_all [Sub.finish, earlyPc, earlySt]
-    all_goals simp_all [Sub.finish, Sub.startWalk, earlyPc, earlySt]
+    case fin l st why => cases why <;> simp_all [Sub.finish, earlyPc, beforeSwitch, earlySt]
+    all_goals simp_all [Sub.finish, Sub.startWalk, earlyPc, beforeSwitch, earlySt]
 
 theorem early_shared (sys : Sys K T R) {rq : Req K T R} {b : Sub K V R} (l : ShLabel K V T R)
     (hph : Phase rq b) (hi : Early rq b) : Early rq (b.onShared sys rq l) := by
@@ -100,7 +111,7 @@ theorem early_shared (sys : Sys K T R) {rq : Req K T R} {b : Sub K V R} (l : ShL
   refine ⟨?_, ?_, ?_, ?_⟩
   · intro hx
     rw [onShared_pc] at hx
-    have hr : b.registered = false := hph.pre_reg (by revert hx; cases b.pc <;> simp [earlyPc, HPc.preReg])
+    have hr : b.registered = false := hph.pre_reg (by revert hx; cases b.pc <;> simp [beforeSwitch, HPc.preReg])
     obtain ⟨e1, e2⟩ := onShared_unreg sys rq b l hr
     rw [e1, e2, onShared_rounds]; exact h1 hx
   · intro hx
@@ -135,7 +146,7 @@ theorem early_untouched {rq : Req K T R} {b : Sub K V R} (hph : Phase rq b) (hi 
   rcases h with h | h
   · have hpre : b.pc.pre = true ∧ b.pc.preReg = true := by
       revert h; cases b.pc <;> simp [earlyPc, HPc.pre, HPc.preReg]
-    obtain ⟨e1, e2, e3⟩ := hi.pcU h
+    obtain ⟨e1, e2, e3⟩ := hi.pcU (beforeSwitch_of_early h)
     exact ⟨hph.pre_sent hpre.1, e1, hph.pre_reg hpre.2, hph.pre_walker hpre.1, e2, e3,
       Or.inl (hph.pre_snd hpre.1)⟩
   · exact hi.stU h
@@ -425,14 +436,24 @@ theorem allowed_unaffected_partial [Inhabited V] {sys : Sys K T R} (hsw : sys.sw
         rw [this]; exact h1
 
 /-- everything for authorised targets is still delivered, whatever the ACL denies (STREAM):
-the convergence theorem holds for every allowed key under an arbitrary ACL. -/
+the convergence theorem holds for every allowed key under an arbitrary ACL (as `C04.converges`: up to
+the logged quiet writes; with an empty log, equality: `allowed_still_delivered_stream_exact`). -/
 theorem allowed_still_delivered_stream [Inhabited V] {sys : Sys K T R} (hsw : sys.swap = false)
     (wf : sys.WF) {c : Cfg K V T R} (h : Reach sys c) (s : Nat)
     (hq : c.sh.pend = [] ∧ (c.subs s).walker = .done ∧ (c.subs s).q = [] ∧ (c.subs s).snd = .idle)
     (hr : (c.subs s).registered = true) (huo : (sys.req s).updatesOnly = false) (k : K)
     (hw : (sys.req s).walks k = true) (ha : (sys.req s).allow (sys.tgt k) = true) :
-    view sys k (c.subs s).sent = c.sh.cache k := by
+    ORel (QChain c.sh.qlog) (view sys k (c.subs s).sent) (c.sh.cache k) := by
   exact C04.converges hsw wf h s hq hr huo k hw ha
+
+theorem allowed_still_delivered_stream_exact [Inhabited V] {sys : Sys K T R} (hsw : sys.swap = false)
+    (wf : sys.WF) {c : Cfg K V T R} (h : Reach sys c) (s : Nat)
+    (hq : c.sh.pend = [] ∧ (c.subs s).walker = .done ∧ (c.subs s).q = [] ∧ (c.subs s).snd = .idle)
+    (hr : (c.subs s).registered = true) (huo : (sys.req s).updatesOnly = false) (k : K)
+    (hw : (sys.req s).walks k = true) (ha : (sys.req s).allow (sys.tgt k) = true)
+    (hnq : c.sh.qlog = []) :
+    view sys k (c.subs s).sent = c.sh.cache k :=
+  C04.converges_exact hsw wf h s hq hr huo k hw ha hnq
 
 
 /-! ## Non-vacuity -/
